@@ -102,6 +102,7 @@ def main():
     ap.add_argument('--out', default='/tmp/mutants.jsonl')
     ap.add_argument('--list', action='store_true')
     ap.add_argument('--max-checks', type=int, default=4)
+    ap.add_argument('--recheck', default='', help='second pass: take the survivors recorded in this jsonl file and run the checks AFTER the first --max-checks ones')
     a = ap.parse_args()
     files = a.files.split(',')
     ops = a.ops.split(',')
@@ -115,6 +116,15 @@ def main():
         return
     rnd = random.Random(a.seed)
     rnd.shuffle(cands)
+    first = 0
+    if a.recheck:
+        cands = []
+        for l in open(a.recheck):
+            r = json.loads(l)
+            if r.get('verdict') == 'survived':
+                cands.append({k: r[k] for k in ('file', 'line', 'op', 'col', 'old', 'new')})
+        first = a.max_checks
+        a.max_checks = 99
     slot = a.slot
     os.environ['MUT_SLOT'] = slot
     mr, mh, mv = f'/tmp/mutrepo{slot}', f'/tmp/muth{slot}', f'/tmp/mutv{slot}'
@@ -151,7 +161,7 @@ def main():
         src[m['line'] - 1] = m['new']
         open(path, 'w').write('\n'.join(src))
         rec = dict(m, key=key)
-        rc, out = sh('cargo test --offline --no-fail-fast 2>&1', cwd=mr, timeout=420, env=env)
+        rc, out = (0, '') if a.recheck else sh('cargo test --offline --no-fail-fast 2>&1', cwd=mr, timeout=420, env=env)
         if 'error: could not compile' in out or 'error[E' in out:
             rec['verdict'] = 'uncompilable'
         elif rc != 0:
@@ -164,7 +174,7 @@ def main():
             else:
                 rec['verdict'] = 'survived'
                 rec['checks'] = []
-                for p in FILE_CHECKS[m['file']][:a.max_checks]:
+                for p in FILE_CHECKS[m['file']][first:a.max_checks]:
                     e2 = dict(env)
                     if p in ('C17', 'C19'):
                         rc, out = sh('cargo build --profile plain --bin vcheck 2>&1', cwd=mh, timeout=900, env=env)
